@@ -1805,7 +1805,21 @@ def plan_exec(plan, stock_conc, dev, max_volume, with_dest, rng):
     wl = impl.make_wl({"dev": dev, "max_volume": max_volume})
     kw = dict(worklist=wl, stock=stock, diluent=dil, diluent_column=1, dilution_plate=plate)
     if with_dest:
-        kw.update(destination_plate=dest, v_destination=rng.choice([5.0, 10.0]))
+        # The plan budgets only its own serial transfers; `v_destination` is the caller's choice and
+        # is drawn from what is left in each column afterwards.  Asking for more than the smallest
+        # residual is a request the volume tracking rightly refuses (C02), not a defect of the plan
+        # (false alarm of an earlier version of this harness, see DESIGN.md §9).
+        resid = None
+        for c in range(C):
+            drawn = np.zeros(R)
+            for col, _, src, v in plan.instructions:
+                if src == c:
+                    drawn = drawn + np.asarray(v, dtype=float)
+            left = float(np.min(float(np.atleast_1d(plan.vmax)[c]) - drawn))
+            resid = left if resid is None else min(resid, left)
+        vd = min(rng.choice([5.0, 10.0]), math.floor(resid * 4) / 4)
+        if vd > 0:
+            kw.update(destination_plate=dest, v_destination=vd)
     kw.update(mix_repeat=rng.choice([0, 1, 2]), mix_volume=rng.choice([0.5, 0.8]))
     try:
         plan.to_worklist(**kw)
